@@ -415,6 +415,8 @@ func (r *Runner) assignVal(name string, prev expand.Variable, as *syntax.Assign,
 		case expand.Indexed:
 			// Appends to the element at index 0, creating it if unset.
 			if len(prev.List) > 0 && (prev.Indexes == nil || prev.Indexes[0] == 0) {
+				// The list may be shared with a parent or child shell.
+				prev.List = slices.Clone(prev.List)
 				prev.List[0] += s
 			} else {
 				prev.List, prev.Indexes = internal.SetIndexedElem(prev.List, prev.Indexes, 0, s)
